@@ -195,6 +195,104 @@ class Word:
 # }}}
 
 
+# {{{ finite monoids (huge exponents stay computable) and a mutable matrix
+
+class ModP:
+    """Residue class modulo p under multiplication; the int 1 is accepted as neutral element."""
+    __slots__ = ("v", "p")
+
+    def __init__(self, v, p):
+        self.v = v % p
+        self.p = p
+
+    def __mul__(self, o):
+        if isinstance(o, ModP) and o.p == self.p:
+            return ModP(self.v * o.v, self.p)
+        if isinstance(o, int) and not isinstance(o, bool) and o == 1:
+            return ModP(self.v, self.p)
+        return NotImplemented
+
+    __rmul__ = __mul__
+
+    def __eq__(self, o):
+        return isinstance(o, ModP) and (self.v, self.p) == (o.v, o.p)
+
+    def __hash__(self):
+        return hash((self.v, self.p))
+
+    def __repr__(self):
+        return f"ModP({self.v}, {self.p})"
+
+
+class Perm:
+    """Permutation of range(k); (a*b)(i) = a(b(i))."""
+    __slots__ = ("t",)
+
+    def __init__(self, t):
+        self.t = tuple(t)
+
+    def __mul__(self, o):
+        if isinstance(o, Perm):
+            return Perm(self.t[i] for i in o.t)
+        if isinstance(o, int) and not isinstance(o, bool) and o == 1:
+            return Perm(self.t)
+        return NotImplemented
+
+    __rmul__ = __mul__
+
+    def __eq__(self, o):
+        return isinstance(o, Perm) and self.t == o.t
+
+    def __hash__(self):
+        return hash(self.t)
+
+    def __repr__(self):
+        return f"Perm{self.t}"
+
+
+class MutMat:
+    """Mutable square integer matrix WITH in-place multiplication (like numpy.matrix)."""
+
+    def __init__(self, rows):
+        self.rows = [list(r) for r in rows]
+
+    def _prod(self, o):
+        n = len(self.rows)
+        return [[sum(self.rows[i][k] * o.rows[k][j] for k in range(n)) for j in range(n)]
+                for i in range(n)]
+
+    def __mul__(self, o):
+        if isinstance(o, MutMat):
+            return MutMat(self._prod(o))
+        if isinstance(o, int) and not isinstance(o, bool) and o == 1:
+            return MutMat(self.rows)
+        return NotImplemented
+
+    def __rmul__(self, o):
+        if isinstance(o, int) and not isinstance(o, bool) and o == 1:
+            return MutMat(self.rows)
+        return NotImplemented
+
+    def __imul__(self, o):
+        if not isinstance(o, MutMat):
+            return NotImplemented
+        self.rows = self._prod(o)
+        return self
+
+    def __eq__(self, o):
+        return isinstance(o, MutMat) and self.rows == o.rows
+
+    __hash__ = None
+
+    def copy(self):
+        return MutMat(self.rows)
+
+    def __repr__(self):
+        return f"MutMat({self.rows})"
+
+# }}}
+
+
 # {{{ deterministic call budget
 
 class BudgetExceeded(Exception):
